@@ -75,7 +75,7 @@ def main(argv=None):
         return 1 if ok else 0
     jobs = mod.jobs(a.tier)
     if a.only:
-        jobs = [j for j in jobs if re.search(a.only, j[0])]
+        jobs = [j for j in jobs if re.search(a.only, j[0] + repr(j[1]))]
     work = [(modname, fn, kw, seed, a.tier) for fn, kw in jobs]
     ctx = mp.get_context('spawn')
     recs = []
